@@ -31,9 +31,13 @@ func (dc *DublinCore) parse(p property) (err error) {
 	case xmpns.Format:
 		dc.Format = imagetype.FromString(string(p.Value()))
 	case xmpns.Creator:
-		dc.Creator = append(dc.Creator, parseString(p.Value()))
+		if p.pt == tagPType { // an attribute of the list item (xml:lang) is a qualifier, not an item
+			dc.Creator = append(dc.Creator, parseString(p.Value()))
+		}
 	case xmpns.Subject:
-		dc.Subject = append(dc.Subject, parseString(p.Value()))
+		if p.pt == tagPType {
+			dc.Subject = append(dc.Subject, parseString(p.Value()))
+		}
 	case xmpns.Rights:
 		if p.pt == tagPType {
 			dc.Rights = append(dc.Rights, parseString(p.Value()))
